@@ -26,8 +26,9 @@ RULES = {
     "R5": "supplied mapping: validated (dense) before use, passed as existing_mapping, table built from it verbatim; validator's definition",
     "R6": "column stacking and inverse split/transpose in Screen.__init__",
     "R7": "ExperimentSpace sizes from the mapping tuple, excluding only the sentinel",
+    "R8": "the derived screen attributes this property's code relies on (sample_space_size, treatment_space_size, unique_treatments, n_unique_treatments, unique_sample_ids, n_unique_samples) have their documented definitions in ScreenBase and every override",
 }
-MIN = {"R1": 4, "R2": 2, "R3": 2, "R4": 4, "R5": 6, "R6": 2, "R7": 4}
+MIN = {"R1": 4, "R2": 2, "R3": 2, "R4": 4, "R5": 6, "R6": 2, "R7": 4, "R8": 6}
 TRUSTED = ["pandas drop_duplicates / sort_values / reset_index / merge(how='left') semantics", "rank lemma: for a non-control row at position p, p - #controls at positions <= p is its rank among non-controls"]
 TECHNIQUE = "def-use provenance of returned tuples, guard dominance, relational and polynomial normal forms against forms written from the statement"
 LEVEL_TEXT = ("The bijection claim rests on a handful of shape facts (one table for ids and mapping, the control predicate, the "
@@ -934,7 +935,11 @@ def r7(ctx):
               f"n_unique_samples is `{U(r[0].value) if r else None}`, not the number of mapping entries")
 
 
-RULE_FUNCS = [r1, r2, r3, r4, r5, r6, r7]
+def r_derived(ctx):
+    common.derived_attributes(ctx, "R8", ['sample_space_size', 'treatment_space_size', 'unique_treatments', 'n_unique_treatments', 'unique_sample_ids', 'n_unique_samples'])
+
+
+RULE_FUNCS = [r1, r2, r3, r4, r5, r6, r7, r_derived]
 
 
 def run(ctx):
